@@ -25,6 +25,7 @@ DROPPED = [
     "docstrings", "type annotations", "logger.* calls (no-ops)",
     "decorators other than property/dataclass/staticmethod (@parallelize => A4)",
     "float literals -> exact decimals (A1)", "exception message texts (class kept)",
+    "module-level statements other than the definitions and pure constant assignments a function refers to",
 ]
 
 _cache = {}
@@ -412,6 +413,44 @@ def extract(modname, qualname, inv_loops=None, label=None):
     ast.fix_missing_locations(m)
     code = compile(m, "<pyvc:%s:%s>" % (modname, qualname), "exec")
     return code, info, node.name
+
+
+def exec_module_constant(ns, modname, name, _depth=0):
+    """Module-level `NAME = <pure expression>` (constants, other module-level names, attributes such as np.pi,
+    arithmetic, tuples; no calls): evaluated in the harness namespace with the same literal rewrite as function
+    bodies.  Returns True when the name is now bound.  Anything else is left unbound (-> undecided at use)."""
+    mod = module(modname)
+    for n in mod.tree.body:
+        val = None
+        if isinstance(n, ast.Assign) and len(n.targets) == 1 and isinstance(n.targets[0], ast.Name) and n.targets[0].id == name:
+            val = n.value
+        elif isinstance(n, ast.AnnAssign) and isinstance(n.target, ast.Name) and n.target.id == name and n.value is not None:
+            val = n.value
+        if val is None:
+            continue
+        ok = (ast.Constant, ast.Name, ast.Attribute, ast.BinOp, ast.UnaryOp, ast.Tuple, ast.Load, ast.operator, ast.unaryop)
+        if not all(isinstance(x, ok) for x in ast.walk(val)):
+            return False
+        for x in ast.walk(val):
+            if isinstance(x, ast.Name) and x.id not in ns and _depth < 4:
+                exec_module_constant(ns, modname, x.id, _depth + 1)
+
+        class _Lit(ast.NodeTransformer):
+            def visit_Constant(self, c):
+                if isinstance(c.value, float):
+                    return ast.copy_location(ast.Call(ast.Name("__F__", ast.Load()), [ast.Constant(repr(c.value))], []), c)
+                return c
+        import copy
+        e = ast.Expression(_Lit().visit(copy.deepcopy(val)))
+        ast.fix_missing_locations(e)
+        for k, v in base_namespace().items():
+            ns.setdefault(k, v)
+        try:
+            ns[name] = eval(compile(e, "<pyvc:%s:%s>" % (modname, name), "eval"), ns)
+        except Exception:
+            return False
+        return True
+    return False
 
 
 LOOPSPECS = {}
